@@ -24,6 +24,8 @@ type VerifPoolSnap struct {
 	QCostCap map[common.Address]*big.Int
 	PGasCap  map[common.Address]uint64
 	QGasCap  map[common.Address]uint64
+	PricedItems  types.Transactions // txPricedList.items: the price heap array, in array order (stale entries included)
+	PricedStales int
 	GasPrice *big.Int
 	MaxGas   uint64
 }
@@ -69,6 +71,8 @@ func (pool *TxPool) VerifSnap(addrs []common.Address) *VerifPoolSnap {
 	for a := range pool.locals.accounts {
 		s.Locals[a] = true
 	}
+	s.PricedItems = append(types.Transactions{}, (*pool.priced.items)...)
+	s.PricedStales = pool.priced.stales
 	return s
 }
 
